@@ -176,6 +176,17 @@ Definition is_child (d p : bytes) : bool := is_desc d p && negb (existsb (N.eqb 
 Definition children (fs : fsys) (d : bytes) : list node := filter (fun n => is_child d (n_path n)) fs.
 Definition descendants (fs : fsys) (d : bytes) : list node := filter (fun n => is_desc d (n_path n)) fs.
 
+(* the archive walker (fs.Walk below the directory, the directory itself left out): an entry that
+   is hidden is passed over, and a hidden directory is not descended into (filepath.SkipDir) —
+   a descendant is archived iff neither it nor a directory between [d] and it is hidden *)
+Definition cut_by (fs : fsys) (hide : list bytes) (d : bytes) (k : node) (a : node) : bool :=
+  is_hidden fs hide a && is_desc d (n_path a) &&
+  (beq (n_path a) (n_path k) || (n_dir a && is_desc (n_path a) (n_path k))).
+Definition archived (fs : fsys) (hide : list bytes) (d : bytes) (k : node) : bool :=
+  negb (existsb (cut_by fs hide d k) fs).
+Definition archive_members (fs : fsys) (hide : list bytes) (d : bytes) : list node :=
+  filter (archived fs hide d) (descendants fs d).
+
 Definition browse (fs : fsys) (hide pages : list bytes) (confs : list bconf)
            (meth : N) (req ae archive : bytes) : outcome :=
   let next := serve_file fs hide pages [SLASH] meth req ae in
@@ -199,7 +210,7 @@ Definition browse (fs : fsys) (hide pages : list bytes) (confs : list bconf)
           else match archive with
                | [] => Listing (filter (fun k => negb (is_hidden fs hide k)) kids)
                | _ => if existsb (beq archive) (b_types bc)
-                      then Archive (descendants fs dirp)   (* fs.Walk: the hide list is not consulted *)
+                      then Archive (archive_members fs hide dirp)
                       else Status 404
                end
     end
@@ -320,13 +331,17 @@ Definition spec_ok (s : site) (r : request) (o : obs) : bool :=
                       where_ (n_path n)) fs in
   let visible (p : bytes) :=
     match fs_at fs p with Some n => negb (hidden_id fs (s_hide s) (n_id n)) | None => false end in
+  (* p lies below a hidden directory that is itself below the archived directory *)
+  let below_hidden (p : bytes) :=
+    existsb (fun a => n_dir a && hidden_id fs (s_hide s) (n_id a) && is_desc c (n_path a) && is_desc (n_path a) p) fs in
   same_origin (o_loc o) &&
   match o_kind o with
   | 0 => forallb (ok_file (allowed_static (s_pages s) (q_path r) (q_ae r))) (o_ids o) &&
          (* a 200 answer to GET is exactly one file *)
          (if (o_status o =? 200) && (q_meth r =? 0) then N.of_nat (length (o_ids o)) =? 1 else true)
   | 1 => seteq_N (o_ids o) [] && forallb (fun nm => visible (child_path c nm)) (o_names o)
-  | _ => forallb (ok_file (is_desc c)) (o_ids o) && forallb (fun nm => visible (child_path c nm)) (o_names o)
+  | _ => forallb (ok_file (fun p => is_desc c p && negb (below_hidden p))) (o_ids o) &&
+         forallb (fun nm => visible (child_path c nm) && negb (below_hidden (child_path c nm))) (o_names o)
   end.
 
 Definition judge (c : case) : N :=
